@@ -223,6 +223,9 @@ def gen_case(rnd, profile="mixed", size="small"):
                 a = dec(amt, p)
                 if rnd.random() < 0.07:
                     a = rnd.choice(["0", "-1"])
+                elif rnd.random() < 0.25:
+                    # finer than the symbol's precision (loans are not rounded by the exchange)
+                    a = dec(F(amt) + F(rnd.randint(1, 99), 10 ** (p + 2)), p + 2)
                 acts.append(["loan", s, a])
                 n_loans += 1
             elif r < 0.9:
@@ -234,7 +237,12 @@ def gen_case(rnd, profile="mixed", size="small"):
             script[str(i)] = acts
     return {"syms": syms, "pairs": pairs, "sym_prec": sym_prec, "pair_info": pair_info, "default_pair": default_pair,
             "fee": fee, "liq": liq, "lend": lend, "initial": initial, "bars": bars, "script": script,
-            "subscribe_first": rnd.random() < 0.3, "profile": profile, "ample": profile == "ample"}
+            "subscribe_first": rnd.random() < 0.3, "profile": profile, "ample": profile == "ample",
+            # a single feed carrying the bars of every pair (multi-pair histories only)
+            "merged_source": (rnd.random() < 0.4) if (profile == "multipair" and len(pairs) > 1) else False,
+            # pairs that have a second, passive subscriber besides the strategy's handler
+            "extra_subs": ([i for i in range(len(pairs)) if rnd.random() < 0.4]
+                           if (profile == "multipair" and len(pairs) > 1) else [])}
 
 
 def gen_boundary(rnd):
